@@ -229,6 +229,9 @@ pub fn oracle_true_digests(sub: &str, x: &[u8], rank: u64, case: &dyn Fn() -> Va
             Some(Val::Int32(v)) if !v.is_empty() => v[0],
             _ => 1,
         };
+        if digests.len() != names.len() || modes.len() != names.len() {
+            bad("file-digest-count", format!("{} files but {} file digests and {} modes: the per-file arrays are out of step", names.len(), digests.len(), modes.len()));
+        }
         match read_archive(&archive, &sizes) {
             Err(e) => bad("archive", format!("archive unreadable: {}", e)),
             Ok((ents, _)) => {
